@@ -5,18 +5,24 @@ the executable models and prints one output line per op line.
 -/
 import Vipnode.Drv.Store
 import Vipnode.Drv.Pool
+import Vipnode.Drv.Server
 open Vipnode Vipnode.Drv
 
 structure DState where
   store : Store := {}
   pool : Pool := {}
+  srv : AList Method := []
 
 def stepLine (st : DState) (line : String) : DState × String :=
-  match (line.trimAscii.toString.splitOn " ").filter (· ≠ "") with
+  let toks := (line.trimAscii.toString.splitOn " ").filter (· ≠ "")
+  -- an op the harness executed but blanked (clock-sensitive outcome, or not expressible on this transport)
+  if toks.contains "#skipped" then (st, "noop") else
+  match toks with
   | "case" :: rest => ({}, "case " ++ joinS rest)
   | "base" :: rest => (st, "base " ++ joinS rest)
   | "store" :: args => let (s, o) := storeStep st.store args; ({ st with store := s }, o)
   | "pool" :: args => let (s, o) := poolStep st.pool args; ({ st with pool := s }, o)
+  | "srv" :: args => let (s, o) := srvStep st.srv args; ({ st with srv := s }, o)
   | ["noop"] => (st, "noop")
   | [] => (st, "")
   | _ => (st, "bad-op")
